@@ -196,6 +196,14 @@ func ExternalEvent(name string) { select {} }
 // goroutines other than the caller die. Natively nothing happens.
 func ProcessExit() {}
 
+
+// CobraRun runs the Run closure of the cobra command variable varName of the calling package with
+// the given arguments (engine only: the closure is taken from the package initialiser's SSA, cobra
+// itself is not executed). CaptureStdout/TakeStdout collect what fmt.Print* wrote meanwhile.
+func CobraRun(varName string, args []string) { panic("sym.CobraRun: engine only") }
+func CaptureStdout(on bool)                  {}
+func TakeStdout() []string                   { return nil }
+
 func IsConcrete(s string) bool { return true }
 
 // RunToCrash runs f; under the engine f may be cut short at any file-system operation
